@@ -275,8 +275,48 @@ def parse_ok(ans, sort):
 
 # --------------------------------------------------------------------------- run
 
+def stream_hash_after_change(ctx):
+    """'Points with identical vectors have identical hashes' - also for a point that was hashed BEFORE it got its
+    present vector (re-assigned, edited in place or taken over with sync()): hashing and set membership must follow
+    the vector the point holds now (theorem identical_same_hash: the hash key is a function of the vector)."""
+    from artap.individual import Individual
+    rng = ctx.rng
+    for k in range(400 if ctx.quick else 5000):
+        n = rng.randint(1, 5)
+        v = [float(rng.randint(-3, 3)) for _ in range(n)]
+        w = [float(rng.randint(-3, 3)) + rng.choice([0.0, 0.5]) for _ in range(n)]
+        a = Individual(list(v))
+        h0 = hash(a)
+        seen = {a}                       # hashed once, e.g. by a set or by nondominated_truncate
+        mode = rng.choice(["assign", "in-place", "sync"])
+        if mode == "assign":
+            a.vector = list(w)
+        elif mode == "in-place":
+            for i in range(n):
+                a.vector[i] = w[i]
+        else:
+            a.sync(Individual(list(w)))
+        b = Individual(list(w))
+        ctx.case(("hash-after-change", tuple(v), tuple(w), mode), v != w, sample={"op": "hash-after-change", "first_vector": v, "vector_now": w, "how": mode})
+        ctx.count("hash_after_" + mode)
+        bad = None
+        if hash(a) != hash(b):
+            bad = "hash differs from the hash of a fresh point with the identical vector"
+        elif len(set([a, b])) != 1:
+            bad = "set() keeps both the point and a fresh point with the identical vector"
+        elif b not in set([a]):
+            bad = "a set holding the point does not contain a fresh point with the identical vector"
+        if bad:
+            ctx.fail("hash-identical-vectors", "a point created with vector %r, hashed, then given the vector %r (%s): %s" % (v, w, mode, bad),
+                     {"op": "hash-after-change", "v": v, "w": w, "mode": mode})
+            return False
+    return True
+
+
 def run(ctx):
     rng = ctx.rng
+    if not stream_hash_after_change(ctx):
+        return
     ctx.rule = ("pairs of equal-length vectors (1..10, thorough 1..30) from value pools (ints, floats, +-0.0, 1e-10 boundary "
                 "values, 1e3) where w is v perturbed in a chosen subset of coordinates (none, one, all but one, random) by "
                 "amounts 1e-13..1e3 around the tolerance; lists with planted identical / near / one-coordinate-different "
@@ -471,6 +511,20 @@ def report_gen(ctx, n, pairs):
 def replay(ctx, rp):
     c = rp["case"]
     op = c.get("op")
+    if op == "hash-after-change":
+        from artap.individual import Individual
+        a = Individual(list(c["v"]))
+        hash(a)
+        if c["mode"] == "assign":
+            a.vector = list(c["w"])
+        elif c["mode"] == "in-place":
+            for i, x in enumerate(c["w"]):
+                a.vector[i] = x
+        else:
+            a.sync(Individual(list(c["w"])))
+        b = Individual(list(c["w"]))
+        print("hash(point) == hash(fresh point with the identical vector):", hash(a) == hash(b), "; set size:", len(set([a, b])))
+        return hash(a) == hash(b) and len(set([a, b])) == 1
     if op in ("eq", "hash"):
         v, w = c["v"], c["w"]
         got, got2, want = impl_eq(v, w), impl_eq(w, v), spec_eq(v, w)
